@@ -1,4 +1,53 @@
 # one add(...) per claimed property: add(id, level, technique, level text, level note)
-add("C12", "exploration", "runtime differential monitor: independent RESP encoder -> rueidis decoder under many read splits",
-    "Random well-formed RESP2/RESP3 trees are encoded by an independent encoder, decoded by the real readNextMessage/streamTo under 6 split plans and 4 buffer sizes and compared node by node; held on the trees generated, not a proof over all inputs.",
-    "Trusted: harness/resp encoder (written from the RESP3 spec), the VerifDump export wrapper. Attributes are never attached to RESP2-style nulls (not well-formed RESP3).")
+RT = "runtime monitoring: "
+add("C01", "exploration", RT + "uid-carrying stress workload on shared connections under -race + synctest virtual-time runs; oracle = reply function F(uid,shape), exactly-once accounting from the server's execution events",
+    "2-32 concurrent callers issue every call kind (Do, DoMulti, MULTI/EXEC, DoCache, DoMultiCache, blocking-tagged, Receive) on shared connections across 10 client configurations (ring/flowbuffer, RESP2/3, multiplex, ring scale, AlwaysPipelining, flush delay) with random cancellation, pushes and chunked replies; each reply must be F(own uid) and each successful uid executed exactly once; virtual-time runs add deadline cancellation and detect hung or leaked goroutines. Held on the interleavings the scheduler produced (overlap and wire-order inversion counts are in the evidence), not on all schedules.",
+    "Trusted: fakeredis (in-process server) keeps per-connection reply order and answers VERIF.ECHO with F(uid,shape); Go race detector; testing/synctest. Receive calls use channels of their own (see known finding C26-K1). Wires are dialled up front with an uncancellable context.")
+add("C08", "exploration", RT + "adversarial command pairs from the reflected builder graph through the real CacheKey and the real built-in / adapter stores",
+    "Pairs of distinct cacheable commands (re-split arguments, numeric re-split, empty args, key absorbing the command name, cross-command, MGET siblings) are checked at identity level and behaviourally (Flight a, Update a, Flight b must not hit) on both stores. The separator-less identity is a listed known finding (two precise shapes); any other collision is a violation.",
+    "Trusted: reflection reaches every Cache() path; the driver's own argv model (key = argv[1], argv[3] for read-only scripts).")
+add("C10", "exploration", RT + "invariant hook under the store's own lock (lru.update.end) + reference LRU model over random operation histories",
+    "Random Flight/Flights/Update/Cancel/Delete/expiry histories drive the real lru; at every Update (under its lock) the monitor walks list and map: size == sum of completed entry sizes, size <= max, pending entries never evicted, evicted entries not more recent than retained ones (respecting the documented lazy move-to-back).",
+    "Trusted: VerifLRUSnapshotLocked export; the driver's logical clock for recency.")
+add("C12", "exploration", RT + "differential monitor: independent RESP encoder -> rueidis decoder under many read splits",
+    "Random well-formed RESP2/RESP3 trees are encoded by an independent encoder, decoded by the real readNextMessage/streamTo under 6 split plans and 4 buffer sizes and compared node by node; held on the trees generated.",
+    "Trusted: harness/resp encoder (written from the RESP3 spec), the VerifDump export. Attributes are never attached to RESP2-style nulls.")
+add("C13", "exploration", RT + "hostile byte sequences decoded in a crash-isolated child process with an address-space limit; oracle = no panic, no process death, bounded allocation per call",
+    "Every length-carrying type x 23 hostile length spellings x 7 contexts, all type bytes, truncations, flips, insertions and length edits of valid frames, nesting to depth 20000; each through readNextMessage (two split plans) and streamTo. Allocation (TotalAlloc + stack growth) must stay within 64 x bytes delivered + 4 MiB. Unbounded recursion depth is a listed known finding.",
+    "Trusted: runtime.MemStats as allocation measure; a process death is attributed to the last input logged before it.")
+add("C14", "exploration", RT + "round trip through the real writer and an independent decoder, plus a live client over net.Pipe",
+    "Commands with argument lengths and counts straddling every power of ten (to 10^7 bytes / 10^5 args quick, 10^8 / 10^6 thorough), binary and CRLF payloads, several bufio sizes, back-to-back framing; the live part sends through _backgroundWrite, the sync path and DoStream and compares the multiset received.",
+    "Trusted: harness/resp decoder; canonical-form comparison declared in the evidence.")
+add("C15", "exploration", RT + "reflection-enumerated accessor calls under recover over decoder-produced and shape-mutated replies",
+    "Every zero-argument exported accessor of RedisResult/RedisMessage/RedisError (plus DecodeJSON, DecodeSliceOfJSON, package classifiers) is called on random decoder output, on every single-node mutation of 44 canonical structured replies and on 3000+ error texts; no panic, nil -> IsRedisNil, error reply -> RedisError with the same text, curated wrong-type table -> error.",
+    "Trusted: the curated wrong-type table (467 entries); panics are attributed to the innermost rueidis frame.")
+add("C16", "exploration", RT + "data -> documented RESP2/RESP3 reply shape -> real decoder -> accessor -> equals data",
+    "All conversion and structured helpers are checked in both protocol shapes on random data; shapes are transcribed from the Redis/RediSearch documentation.",
+    "Trusted: the transcribed reply shapes; ambiguous RESP2 inputs (numeric FT.SEARCH ids) are excluded and declared.")
+add("C17", "exploration", RT + "round trip through CacheMarshal/CacheUnmarshalView incl. every truncation",
+    "Random cacheable trees and expiries: marshal length == CacheSize, unmarshal reproduces tree/type/expiry, every proper prefix yields ErrCacheUnmarshal without panic.",
+    "Restricted to what the serializer represents (no push frames / attributes), declared in the evidence.")
+add("C18", "exploration", RT + "independent bitwise CRC16 + hash-tag reference against Completed.Slot(), incl. exhaustive small key spaces and reflected multi-key builders",
+    "All 1- and 2-byte keys and all strings over {,},x up to length 6 exhaustively, random binary keys, 40 hand-written and 204 reflected multi-key builders: slot equals the reference; a cluster builder panics iff slots differ; a non-cluster builder never panics.",
+    "Trusted: the reference implementation (self-checked against the spec's examples).")
+add("C22", "exploration", RT + "reference selector from the doc comments; exhaustive small lists, random large lists, concurrent callers",
+    "Every list of 0-6 nodes x 3 AZ labels x client AZ exhaustively, random lists to 400 nodes, nil/empty lists, 8 goroutines on one selector: result is -1 or valid, in the documented priority class, and rotates.",
+    "Rotation is required to visit every candidate only for classes of <= 8 members (the code caps matches at 8; the doc promises no more).")
+add("C32", "exploration", RT + "exhaustive reflection walk of all 575 roots / 6222 edges reading the tags of built commands; oracle = hand-written command-semantics table",
+    "Every root and option path is built and its tags (read-only, Cache(), blocking, subscribe/unsubscribe) are compared with a conservative reference table from the Redis/module documentation; commands absent from the table are reported unclassified, never violations. AI.MODELEXECUTE is a listed known finding.",
+    "Trusted: the reference table (only commands that certainly write / block are listed).")
+add("C33", "exploration", RT + "twin build over the reflected builder graph + wire-frame monitor under the C01 stress workload with -race",
+    "Every builder edge and 250k random walks are built twice with disjoint values: argv must differ exactly at caller positions with canonical text (ints base 10, floats shortest, time units per option). Under stress with 15-30% abandoned calls every frame the server receives must equal the issued argv.",
+    "Trusted: the time-unit table (Ex/Px/Exat/Pxat), fakeredis frame logging.")
+add("C43", "exploration", RT + "exhaustive enumeration of (entry path x method x hook behaviour) with counting hook and fake inner clients",
+    "78 combinations enumerated completely (client, Dedicated, Dedicate, Nodes()[a] and its dedicated forms x every request method x hook answers/delegates): hook fired exactly once with the caller's arguments, result returned unchanged, inner client reached exactly once on delegation.",
+    "Finite space, exhaustive=true.")
+add("C44", "exploration", RT + "reference option mapping over generated URLs with pairwise distinct component values; every exported leaf of ClientOption compared by reflection",
+    "66k URLs from random component subsets over 5 schemes, IPv4/IPv6/name hosts with and without port, all documented parameters; 31 invalid values must be rejected.",
+    "Trusted: the reference mapping written from ParseURL's doc comment and the README.")
+add("C45", "exploration", RT + "bit-level round trip over structured float grids, all NaN payload classes, byte strings, JSON vs encoding/json",
+    "Sign x every exponent x structured fractions for float32/64 (all 2^32 float32 patterns in thorough), vector lengths to 65537, byte strings to 1 MiB, JSON values of every kind.",
+    "Values encoding/json rejects are outside the statement and only recorded.")
+add("C46", "exploration", RT + "scripted page source recording every cursor and yield; all small page shapes exhaustively plus random scans",
+    "Yielded sequence == concatenation prefix; cursors 0 then each returned cursor; no fetch after cursor 0, a failure or a consumer stop; Err() exposes the page error; Iter2 yields consecutive pairs.",
+    "Iter2 judged on even-length pages.")
